@@ -6,8 +6,11 @@ set -u
 wt=$1; prop=$2; tier=$3
 h=$wt/.vharness
 mkdir -p $h $wt/.vout
-rsync -a --delete --exclude .cargo /verif/harness/ $h/
-sed -i "s#/repo/#$wt/#g" $h/Cargo.toml
+# VERIF_FROZEN_HARNESS=1: keep the copy of the harness made by an earlier call (a long pass is then not disturbed by edits in /verif/harness)
+if [ "${VERIF_FROZEN_HARNESS:-0}" != 1 ] || [ ! -f $h/Cargo.toml ]; then
+  rsync -a --delete --exclude .cargo /verif/harness/ $h/
+  sed -i "s#/repo/#$wt/#g" $h/Cargo.toml
+fi
 mkdir -p $h/.cargo; printf '[net]\noffline = true\n[build]\ntarget-dir = "%s/.vtarget"\n' "$wt" > $h/.cargo/config.toml
 (cd $h && cargo build --release --offline 2>&1 | grep -E "^error" -A8 | head -30)
 VERIF_OUT_DIR=$wt/.vout $wt/.vtarget/release/vcheck $prop $tier
